@@ -68,10 +68,10 @@ theorem P_idem (i : Part) (a : A) : P i (P i a) = P i a := by
 theorem P_orth {i j : Part} (h : i ≠ j) (a : A) : P i (P j a) = 0 := by
   rw [P_comp]; simp [h]
 
-/-- The unperturbed Hamiltonian and the Sylvester solver supplied by `block_diagonalize`. -/
-structure Unperturbed (A : Type*) [Ring A] [StarRing A] [Algebra ℚ A] [StarModule ℚ A] [Filtered A] [Blocks A] where
+/-- The unperturbed Hamiltonian and the Sylvester solver supplied by `block_diagonalize` (no adjoint facts:
+    enough for the non-Hermitian algorithm, complex energies allowed). -/
+structure UnperturbedNH (A : Type*) [Ring A] [StarRing A] [Algebra ℚ A] [StarModule ℚ A] [Filtered A] [Blocks A] where
   H0 : A
-  H0_star : star H0 = H0
   /-- `H0` has only kept (selected) elements: it is block diagonal (checked by block_diagonalize)
       and diagonal inside blocks that carry an elimination mask -/
   H0_up : P Part.up H0 = 0
@@ -87,6 +87,11 @@ structure Unperturbed (A : Type*) [Ring A] [StarRing A] [Algebra ℚ A] [StarMod
   Sy_ed : ∀ z : A, P ed (H0 * Sy z - Sy z * H0) = P ed z
   /-- lower blocks are solved directly only by the non-Hermitian algorithm -/
   Sy_lo : ∀ z : A, P lo (H0 * Sy z - Sy z * H0) = P lo z
+
+/-- Hermitian case: `H0` is self-adjoint and the solver is adjoint-compatible on diagonal blocks. -/
+structure Unperturbed (A : Type*) [Ring A] [StarRing A] [Algebra ℚ A] [StarModule ℚ A] [Filtered A] [Blocks A]
+    extends UnperturbedNH A where
+  H0_star : star H0 = H0
   /-- on diagonal blocks the solution of an adjoint right-hand side is minus the adjoint -/
   Sy_ed_star : ∀ z : A, P ed (star (Sy z)) = - P ed (Sy (star z))
 
